@@ -57,6 +57,14 @@ structure CrossFresh (ρ σ : Store) (pend : List (Key × Val)) (k : Key) : Prop
 /-- `sg` is a signature the program can give rule `k` (in some external state) -/
 def SigOf (P : Program) (k : Key) (sg : Nat) : Prop := ∃ env, P.sig env k = sg
 
+/-- the rule of `k` can accept a stored value at all (in some external state) -/
+def CanValid (P : Program) (k : Key) : Prop := ∃ env v, P.valid env k v = true
+
+/-- a stored record of `k` with signature `sg` is one the engine may reuse under program `P`: `P` can
+give the rule that signature and the rule can accept a stored value (a record is only ever consumed
+at `upToDate`, after the rule accepted the stored value: `validSeen k = some true`) -/
+def Reusable (P : Program) (k : Key) (sg : Nat) : Prop := SigOf P k sg ∧ CanValid P k
+
 def active (s : St) : Prop := s.started = true
 
 structure TaskOk (P : Program) (s : St) (k : Key) : Prop where
@@ -84,13 +92,14 @@ structure Inv (P : Program) (s : St) : Prop where
   seqDone : ∀ k, s.status k = .done →
       (∀ q v, (q, v) ∈ s.mem.seq k → q.kind = 0 → s.status q.key = .done) ∧
       (∀ d v, (d, v) ∈ s.mem.disc k → s.status d = .done ∨ (d, v) ∈ s.pending)
-  /-- the ghost record is an execution of THE program `P` only for records whose signature is one
-  `P` can give the rule (records left by an earlier client program with another signature are never
-  used: the engine re-runs them, reason 1); epoch soundness holds for every record -/
+  /-- the ghost record is an execution of THE program `P` only for records the engine may reuse under
+  `P` (`Reusable`: the signature is one `P` can give the rule and the rule can accept a stored value;
+  records left by an earlier client program with another signature are re-run, reason 1, records of a
+  rule that never accepts its stored value are re-run, reason 2); epoch soundness holds for every record -/
   good : ∀ k, (s.mem.res k).builtAt ≠ 0 → inflight s k = false →
-      (SigOf P k (s.mem.res k).sig → GoodRec P s.mem k) ∧ FreshRec s.mem s.pending k
+      (Reusable P k (s.mem.res k).sig → GoodRec P s.mem k) ∧ FreshRec s.mem s.pending k
   dbGood : ∀ k, (s.db.res k).builtAt ≠ 0 →
-      (SigOf P k (s.db.res k).sig → GoodRec P s.db k) ∧ FreshRec s.db s.pending k
+      (Reusable P k (s.db.res k).sig → GoodRec P s.db k) ∧ FreshRec s.db s.pending k
   dbCross : ∀ k, (s.db.res k).builtAt ≠ 0 → CrossFresh s.db s.mem s.pending k
   memDb : ∀ k, (s.mem.res k).builtAt ≠ 0 → inflight s k = false →
       (s.db.res k).builtAt ≠ 0 ∧ (s.db.res k).value = (s.mem.res k).value ∧
